@@ -44,6 +44,7 @@ func runC12(p *Prog, r *Report) {
 	prefixBitsVsConstant(p, r, "R12.8-family-dependent-host-test")
 	c12QuoteStripping(p, r, "R12.9-quote-unwrapping")
 	c12SignedParse(p, r, "R12.10-no-plus-sign")
+	c12DigitExtractors(p, r, "R12.11-code-point-digits")
 }
 
 // R12.7: netip.ParseAddr accepts a zoned IPv6 address ("fe80::1%eth0"); netip.PrefixFrom silently drops the zone. A
@@ -976,5 +977,55 @@ func c12SignedParse(p *Prog, r *Report, rule string) {
 	}
 	if n == 0 {
 		r.Undec(rule, "types:signed-conversions", "-", "no strconv.ParseInt/Atoi on input text found in package types (anchor vanished)")
+	}
+}
+
+// R12.11: code points go up to 0x10FFFF (21 bits). A hand-written digit extractor that shifts a rune by a loop variable
+// must start high enough to reach the top bits: with hexadecimal digits (step 4) the first shift must be at least 20,
+// or the top digit of every code point ≥ 0x100000 is dropped and `\u{10ffff}` is printed as `\u{ffff}` — which parses,
+// to a different character. (Zero instances today: the escape writer formats with fmt's %x.)
+func c12DigitExtractors(p *Prog, r *Report, rule string) {
+	n := 0
+	for _, fn := range p.Funcs {
+		pp := fnPkgPath(fn)
+		if pp != pRust && pp != pTypes && pp != pSchemaPar {
+			continue
+		}
+		forEachInstr(fn, func(in ssa.Instruction) {
+			bo, ok := in.(*ssa.BinOp)
+			if !ok || bo.Op != token.SHR || basicKind(bo.X.Type()) != types.Int32 {
+				return
+			}
+			ph, ok := stripConv(bo.Y).(*ssa.Phi)
+			if !ok {
+				if cv, ok := bo.Y.(*ssa.Convert); ok {
+					ph, _ = cv.X.(*ssa.Phi)
+				}
+			}
+			if ph == nil {
+				return
+			}
+			// loop variable: phi(const start, phi - step)
+			start, step := int64(-1), int64(0)
+			for _, e := range ph.Edges {
+				if k, ok := constInt(e); ok {
+					start = k
+				}
+				if sb, ok := e.(*ssa.BinOp); ok && sb.Op == token.SUB && sb.X == ssa.Value(ph) {
+					if k, ok := constInt(sb.Y); ok {
+						step = k
+					}
+				}
+			}
+			if start < 0 || step <= 0 {
+				return
+			}
+			n++
+			r.Check(start+step >= 21, rule, fnQual(fn)+":shift-from-"+itoa(int(start)), p.pos(bo.Pos()), "the digit extractor covers all 21 bits of a code point",
+				fnShort(fn)+" extracts digits of a code point by shifting from "+itoa(int(start))+" down in steps of "+itoa(int(step))+": only "+itoa(int(start+step))+" bits are covered, code points up to 0x10FFFF need 21 — the top digit of the highest plane is dropped and the printed escape denotes a different character")
+		})
+	}
+	if n == 0 {
+		r.OK(rule, "no-hand-written-digit-extraction", "-", "no shift-based digit extraction of code points in the text emitters (fmt/strconv format them)")
 	}
 }
